@@ -60,16 +60,16 @@ type Call struct {
 
 // Sent is an API-level message the program asked the connection to send.
 type Sent struct {
-	MT       int
-	Payload  []byte
-	Step     int
-	Control  bool
-	StartEv  int  // index of the call that started the message
-	EndEv    int  // index of the call that completed it (Close / WriteMessage / ...)
+	MT          int
+	Payload     []byte
+	Step        int
+	Control     bool
+	StartEv     int  // index of the call that started the message
+	EndEv       int  // index of the call that completed it (Close / WriteMessage / ...)
 	MayCompress bool // compression negotiated && write compression enabled && data message, at start
-	Level    int
-	Prepared bool
-	Bad      bool
+	Level       int
+	Prepared    bool
+	Bad         bool
 	// Reported: every call of the message returned nil (the API reported it sent).
 	Reported bool
 	// Started: the message's first call succeeded.
@@ -112,15 +112,15 @@ func (s *chunkSrc) Read(p []byte) (int, error) {
 }
 
 type wexec struct {
-	c        *websocket.Conn
-	tr       *xport.ScriptConn
-	tw       *WTrace
-	compNeg  bool
-	compOn   bool
-	level    int
-	deadline time.Time
-	open     io.WriteCloser
-	openMsg  int
+	c         *websocket.Conn
+	tr        *xport.ScriptConn
+	tw        *WTrace
+	compNeg   bool
+	compOn    bool
+	level     int
+	deadline  time.Time
+	open      io.WriteCloser
+	openMsg   int
 	stopOnErr bool
 }
 
